@@ -42,7 +42,8 @@ def jobs(tier):
         J.append(Job("unregister_unknown.n%d" % n, "h_info.c", entry="h_unregister_unknown", defines={"NFIX": n, "NREG": max(n, 1)},
                      unwind=8, unwindset=US, bounded="registry pre-state of exactly %d entries" % n,
                      functions=["parsec_info_unregister"], timeout=1800, mem_gb=10, min_obligations=2))
-    for n in range(1, (nmax if tier == "thorough" else 1) + 1):
+    # unregister with 3 pre-state entries does not get through the back end (cbmc status ERROR after ~14 min / 16 GB): n <= 2
+    for n in range(1, (2 if tier == "thorough" else 1) + 1):
         J.append(Job("unregister.n%d" % n, "h_info.c", entry="h_unregister", defines={"NFIX": n, "NREG": n}, unwind=8, unwindset=US,
                      bounded="registry pre-state of exactly %d entries" % n,
                      functions=["parsec_info_unregister"], timeout=3600, mem_gb=16, min_obligations=5))
